@@ -677,6 +677,9 @@ M('c17-aconf-close-check-late', 'C17', 'src/extensions/qaconf.c',
   "            if (cbdata_parent == NULL\n                    || cmpfunc(cbdata->argv[0], cbdata_parent->argv[0])) {",
   "            if (cbdata_parent != NULL\n                    && cmpfunc(cbdata->argv[0], cbdata_parent->argv[0])) {",
   'NC1', '_parse_inline', 'a stray section close at the top level is no longer refused before the close callback dereferences the parent')
+M('c11-size-out-unguarded', 'C11', 'src/containers/qlist.c',
+  "    if (size != NULL)\n        *size = list->datasum;\n    qlist_unlock(list);", "    *size = list->datasum;\n    qlist_unlock(list);",
+  'NC1', 'qlist_toarray', 'optional out-parameter written without its NULL test on the success path (tested on the empty path)')
 M('c11-borrowed-name-freed', 'C11', 'src/containers/qhashtbl.c',
   "    char *dupname = strdup(name);\n    void *dupdata = malloc(size);",
   "    char *dupname = (obj != NULL) ? obj->name : strdup(name);\n    void *dupdata = malloc(size);",
